@@ -209,9 +209,12 @@ def statement_hash(vfile):
     return hashlib.sha256(norm.encode()).hexdigest(), len(stmts)
 
 
-def proof_check(prop):
+def proof_check(prop, thorough=None):
     """Build Props/<prop>.vo with all it depends on; check hygiene, pinned statements, assumptions.
+    In the thorough tier the compiled files are re-checked by the independent checker coqchk.
     Returns dict(ok, obligations, discharged, lemmas, problems[], axioms{})."""
+    if thorough is None:
+        thorough = os.environ.get("VERIF_TIER") == "thorough" or "thorough" in sys.argv
     vfile = "Props/%s.v" % prop
     res = dict(ok=False, obligations=0, discharged=0, supporting_lemmas=0, problems=[], axioms={}, files=[])
     if not os.path.exists(os.path.join(COQ, vfile)):
@@ -264,6 +267,11 @@ def proof_check(prop):
             res["problems"].append("axioms not in the allow-list: " + ", ".join(sorted(extra)))
     elif closed < n_print:
         res["problems"].append("Print Assumptions output not understood (%d closed of %d)" % (closed, n_print))
+    if thorough and not res["problems"]:
+        rc, out = sh("timeout 1500 coqchk -o -silent -Q . HV HV.Props.%s" % prop, cwd=COQ, check=False, timeout=1600)
+        res["coqchk"] = "Axioms: <none>" in out and rc == 0
+        if not res["coqchk"]:
+            res["problems"].append("coqchk does not accept the development or reports axioms: " + out[-600:])
     res["discharged"] = n if not res["problems"] else 0
     res["ok"] = not res["problems"]
     return res
